@@ -334,6 +334,23 @@ func (r *Run) swallowedWith(v ssa.Value, t errTest, carrier ssa.Value) (bool, st
 			hasErrResult = true
 		}
 	}
+	// the value was already handed on before it is tested (`errCh <- err; if err != nil { return }`):
+	// a hand-over that every path to the test passes through reports the failure as well
+	if iffBlock := predIf(t.fail); iffBlock != nil {
+		for _, b := range fn.Blocks {
+			if b != iffBlock && !b.Dominates(iffBlock) {
+				continue
+			}
+			for _, ins := range b.Instrs {
+				// a send or a call only: a store before the test is usually the variable's own cell
+				_, isSend := ins.(*ssa.Send)
+				_, isCall := ins.(ssa.CallInstruction)
+				if (isSend || isCall) && handlesErr(ins, tainted) {
+					return false, ""
+				}
+			}
+		}
+	}
 	seen := map[*ssa.BasicBlock]bool{}
 	var why string
 	var walk func(b *ssa.BasicBlock, first bool) bool // returns true when a swallowing path exists
@@ -503,4 +520,19 @@ func (r *Run) terminates(fn *ssa.Function, depth int) (string, bool) {
 		reason = why + " (phase of " + fnName(e.Caller) + ")"
 	}
 	return reason, callers > 0
+}
+
+// predIf: the block that ends in the If whose successor is b (b has that single predecessor).
+func predIf(b *ssa.BasicBlock) *ssa.BasicBlock {
+	if b == nil || len(b.Preds) != 1 {
+		return nil
+	}
+	p := b.Preds[0]
+	if len(p.Instrs) == 0 {
+		return nil
+	}
+	if _, ok := p.Instrs[len(p.Instrs)-1].(*ssa.If); ok {
+		return p
+	}
+	return nil
 }
